@@ -65,33 +65,41 @@ def mkObj (ws : List String) : Option Obj :=
   | ["func", env, a] => some (.func env.toNat! a.toNat!)
   | _ => none
 
-/-- one protocol line; the answer is one line -/
+def parseOp (ws : List String) : Option Op :=
+  match ws with
+  | "alloc" :: rest => (mkObj rest).map Op.alloc
+  | ["setvec", a, i, v] => some (.setVec a.toNat! i.toNat! v.toNat!)
+  | ["setarr", a, i, v] => some (.setArr a.toNat! i.toNat! v.toNat!)
+  | ["append", a, v] => some (.append a.toNat! v.toNat!)
+  | ["setfuncvec", a, v] => some (.setFuncVec a.toNat! v.toNat!)
+  | ["setvecref", a, v] => some (.setVecRef a.toNat! v.toNat!)
+  | ["setarrref", a, v] => some (.setArrRef a.toNat! v.toNat!)
+  | ["setstrref", a, v] => some (.setStrRef a.toNat! v.toNat!)
+  | "collect" :: gp :: slots => some (.collect (slots.map parseSlot) gp.toNat!)
+  | "omfalos" :: slots => some (.omfalos (slots.map parseSlot))
+  | _ => none
+
+/-- one protocol line; the answer is one line.  Every operation goes through
+`Gc.wellTyped` and `Gc.apply`, the functions the C09/C04 theorems are stated about. -/
 def step (g : Gc) (line : String) : Gc × String :=
-  let opt (r : Option Gc) : Gc × String :=
-    match r with
-    | some g' => (g', "ok " ++ stateLine g')
-    | none => (g, "crash")
   match words line with
   | ["new", n] => let g' := Gc.new n.toNat!; (g', "ok " ++ stateLine g')
-  | "alloc" :: rest =>
-    match mkObj rest with
-    | none => (g, "bad-op")
-    | some o =>
-      match g.alloc o with
-      | none => (g, "oom " ++ stateLine g)
-      | some (g', loc) => (g', s!"-> {loc} " ++ stateLine g')
-  | ["setvec", a, i, v] => opt (g.setVec a.toNat! i.toNat! v.toNat!)
-  | ["setarr", a, i, v] => opt (g.setArrElem a.toNat! i.toNat! v.toNat!)
-  | ["append", a, v] => opt (g.appendArrElem a.toNat! v.toNat!)
-  | ["setfuncvec", a, v] => opt (g.setFuncVec a.toNat! v.toNat!)
-  | ["setvecref", a, v] => opt (g.setVecRef a.toNat! v.toNat!)
-  | ["setarrref", a, v] => opt (g.setArrRef a.toNat! v.toNat!)
-  | ["setstrref", a, v] => opt (g.setStringRef a.toNat! v.toNat!)
-  | "collect" :: gp :: slots => opt (g.collect (slots.map parseSlot) gp.toNat!)
-  | "omfalos" :: slots => opt (g.runOmfalos (slots.map parseSlot))
   | ["sweep"] => let g' := g.sweep; (g', "ok " ++ stateLine g')
   | ["wants"] => (g, s!"wants {if g.wantsCollect then 1 else 0}")
-  | _ => (g, "bad-op")
+  | ws =>
+    match parseOp ws with
+    | none => (g, "bad-op")
+    | some op =>
+      if !g.wellTyped op then (g, "ill-typed") else
+      match op with
+      | .alloc o =>
+        match g.alloc o with
+        | none => (g, "oom " ++ stateLine g)
+        | some (g', loc) => (g', s!"-> {loc} " ++ stateLine g')
+      | _ =>
+        match g.apply op with
+        | some g' => (g', "ok " ++ stateLine g')
+        | none => (g, "crash")
 
 def main : IO Unit := do
   let stdin ← IO.getStdin
